@@ -346,6 +346,19 @@ def eval_call(repo, ci, spec, quantized):
   return pe, o, out, owner, fn
 
 
+def keras_length(n, k, padding, out_pad, stride, dilation):
+  """Keras' conv_utils.deconv_output_length (trusted reference)."""
+  k = k + (k - 1) * (dilation - 1)
+  if out_pad is None:
+    if padding == "valid":
+      return n * stride + max(k - stride, 0)
+    if padding == "full":
+      return n * stride - (stride + k - 2)
+    return n * stride
+  pad = {"same": k // 2, "valid": 0, "full": k - 1}[padding]
+  return (n - 1) * stride + k - 2 * pad + out_pad
+
+
 def variants():
   """Layer specs, plus option variants that select other branches of
   call()."""
@@ -359,6 +372,13 @@ def variants():
       out.append((qual, mk, "masked"))
       both = dict(spec, geom=dict(spec["geom"], groups=2, _mask=W("mask")))
       out.append((qual, both, "groups=2,masked"))
+    if qual.endswith(".QConv2DTranspose"):
+      # an explicit output padding - all zero, or not - is not the inferred
+      # one
+      for op_ in ((0, 0), (1, 2)):
+        out.append((qual, dict(spec, geom=dict(spec["geom"],
+                                               output_padding=op_)),
+                    "output_padding=%r" % (op_,)))
     if qual.endswith(".QConv1D"):
       cz = dict(spec, geom=dict(spec["geom"], padding="causal"),
                 expect=dict(spec["expect"], padding="causal"))
@@ -550,6 +570,39 @@ def rule_layers(rep, repo, tier="quick"):
                       (cfg, show_term(xin)[:120] if isinstance(xin, tuple)
                        else xin, attrs.get("padding"), ks, dil, want_left),
                       loc=loc, instance=cfg)
+          if spec["op"] == "K.conv2d_transpose":
+            # the output shape asked of the backend is the one the stock
+            # transposed convolution produces for this geometry
+            g = spec["geom"]
+            opad = g.get("output_padding") or (None, None)
+            if g.get("output_padding") is not None:
+              opad = g["output_padding"]
+            want_shape = (2,) + tuple(
+                keras_length(8, g["kernel_size"][i], g["padding"], opad[i],
+                             g["strides"][i], g["dilation_rate"][i])
+                for i in (0, 1)) + (g["filters"],)
+            shp = op[3][2] if len(op[3]) > 2 else None
+            got_shape = None
+            if isinstance(shp, tuple) and shp and shp[0] == "app" and \
+                shp[1] in ("tf.stack", "stack"):
+              got_shape = dict(shp[2]).get("#0")
+            elif isinstance(shp, tuple) and shp and shp[0] == "c":
+              got_shape = shp[1]
+            try:
+              got_shape = tuple(int(d) for d in got_shape)
+            except (TypeError, ValueError):
+              got_shape = None
+            if got_shape is not None:
+              rep.check(got_shape == want_shape, "R3", unit,
+                        "transposed-output-shape",
+                        "%s: on inputs of shape (2, 8, 8, 4) the backend is "
+                        "asked for the output shape %r, the stock "
+                        "Conv2DTranspose with this geometry (output_padding="
+                        "%r) produces %r" % (cfg, got_shape, g.get(
+                            "output_padding"), want_shape), loc=loc,
+                        instance=cfg)
+              rep.extra["transposed_shapes_checked"] = rep.extra.get(
+                  "transposed_shapes_checked", 0) + 1
           for k, v in sorted(spec["expect"].items()):
             if vname == "causal" and k == "padding":
               continue
@@ -901,16 +954,6 @@ def rule_deconv_length(rep, repo):
   rep.unit(unit)
   loc = qc.loc(fn)
 
-  def keras_length(n, k, padding, out_pad, stride, dilation):
-    k = k + (k - 1) * (dilation - 1)
-    if out_pad is None:
-      if padding == "valid":
-        return n * stride + max(k - stride, 0)
-      if padding == "full":
-        return n * stride - (stride + k - 2)
-      return n * stride
-    pad = {"same": k // 2, "valid": 0, "full": k - 1}[padding]
-    return (n - 1) * stride + k - 2 * pad + out_pad
   n_pts = 0
   pe = PE(repo)
   f = pe.lookup_global("deconv_output_length", qc)
@@ -1108,6 +1151,9 @@ def run(rep, repo, tier):
   rep.assumptions.append("numerical equality with the stock Keras layer is "
                          "not computed")
   rule_layers(rep, repo, tier)
+  if rep.extra.get("transposed_shapes_checked", 0) < 12:
+    raise AnalysisError("instance-count transposed output shapes: %r" %
+                        rep.extra.get("transposed_shapes_checked"))
   rule_quantizers_list(rep, repo)
   rule_reported_by_layer(rep, repo)
   rule_mobilenet_factory(rep, repo)
